@@ -100,6 +100,16 @@ def main(chk):
             "desc": sa.select(t.c.id).order_by(t.c.k.desc(), t.c.id.desc()),
         }
 
+    def compounds(t):
+        """compound selects whose fully ordered result is again the whole table in (k, id) order"""
+        odd = sa.select(t.c.id, t.c.k).where(t.c.id % 2 == 1)
+        even = sa.select(t.c.id, t.c.k).where(t.c.id % 2 == 0)
+        every = sa.select(t.c.id, t.c.k)
+        none = sa.select(t.c.id, t.c.k).where(t.c.id < 0)
+        out = {"union": sa.union(odd, even), "union_all": sa.union_all(odd, even), "intersect": sa.intersect(every, every),
+               "except": sa.except_(every, none)}
+        return {k: v.order_by(v.selected_columns.k, v.selected_columns.id) for k, v in out.items()}
+
     def apply(q, lim, off, mode):
         if mode == "int":
             L, O = lim, off
@@ -145,8 +155,9 @@ def main(chk):
             want = c["slice"]
             if 0 < len(want) < n:
                 nontriv += 1
-            base = dict(lim=c["lim"], off=c["off"], rows=n, ties=len(set(ks)) < len(ks))
+            base = base0 = dict(lim=c["lim"], off=c["off"], rows=n, ties=len(set(ks)) < len(ks))
             qs = queries(t, u)
+            cqs = compounds(t)
             # ---------------- A. SQLite native
             for qname, q in qs.items():
                 exp = want if qname != "desc" else [n + 1 - i for i in want]
@@ -178,6 +189,42 @@ def main(chk):
             if got != [ks[i - 1] for i in want]:
                 chk.violation(_sig(action="sqlite_native", query="ties_only", args="int", **base),
                               "ORDER BY k only: keys of the rows %r, keys of the slice %r" % (got, [ks[i - 1] for i in want]), dict(case=c))
+            # compound selects: limit / offset on the compound as a whole, and on a MEMBER (wrapped in a subquery: SQLite accepts no
+            # parenthesised members)
+            for qname, q in cqs.items():
+                for mode in ("int", "bind"):
+                    stmt = apply(q, lim, off, mode)
+                    try:
+                        got = [row[0] for row in conn.execute(stmt)]
+                    except sa.exc.SQLAlchemyError as ex:
+                        got = "%s: %s" % (type(ex).__name__, str(ex).splitlines()[0][:100])
+                    nexec += 1
+                    bump("sqlite/compound")
+                    if got != want:
+                        chk.violation(_sig(action="sqlite_native", query=qname, args=mode, **base),
+                                      "SQLite %s, limit=%r offset=%r (%s) over keys %r returns ids %r, the slice is %r"
+                                      % (qname, lim, off, mode, list(ks), got, want), dict(case=c, sql=str(stmt)))
+            member = apply(sa.select(t.c.id, t.c.k).order_by(t.c.k, t.c.id), lim, off, "int").subquery()
+            rest = sa.select(t.c.id, t.c.k).where(t.c.id < 0)
+            for qname, cs_ in (("member_union_all", sa.union_all(sa.select(member.c.id, member.c.k), rest)),
+                               ("member_union", sa.union(rest, sa.select(member.c.id, member.c.k)))):
+                stmt = cs_.order_by(cs_.selected_columns.k, cs_.selected_columns.id)
+                got = [row[0] for row in conn.execute(stmt)]
+                nexec += 1
+                bump("sqlite/compound_member")
+                if got != want:
+                    chk.violation(_sig(action="sqlite_native", query=qname, args="int", **base),
+                                  "SQLite %s with limit=%r offset=%r on the member returns ids %r, the slice is %r" % (qname, lim, off, got, want),
+                                  dict(case=c, sql=str(stmt)))
+            # a parenthesised member carrying the clause (PostgreSQL text): the member's own LIMIT / OFFSET must be inside the parentheses
+            pm = sa.union_all(apply(sa.select(t.c.id, t.c.k).order_by(t.c.k, t.c.id), lim, off, "int"), rest)
+            text = _compile(pm, d_pg)
+            nshape += 1
+            mm = re.match(r"\(SELECT .*? ORDER BY [^()]*?(?: LIMIT (\d+|ALL))?(?: OFFSET (\d+))?\) UNION ALL SELECT", text)
+            pa_ = c["pg"]
+            if not mm or (-1 if mm.group(1) in (None, "ALL") else int(mm.group(1)), -1 if mm.group(2) is None else int(mm.group(2))) != (pa_["L"], pa_["O"]):
+                chk.violation(_sig(action="limit_offset_text", dialect="postgresql", query="member_parenthesised", **base),
+                              "PostgreSQL union member with limit=%r offset=%r: %s" % (lim, off, text), dict(case=c, sql=text))
             # ---------------- B. MSSQL before 2012: TOP or the ROW_NUMBER() wrapper, executed on SQLite
             for qname in ("plain", "join", "subquery", "distinct", "group_by", "desc"):
                 exp = want if qname != "desc" else [n + 1 - i for i in want]
@@ -220,60 +267,72 @@ def main(chk):
                     chk.violation(_sig(action="mssql_wrapper", query=qname, same_set=same_set, **base),
                                   "the translated MSSQL ROW_NUMBER wrapper (%s), executed on SQLite for limit=%r offset=%r over keys %r, returns %r; the slice is %r"
                                   % (qname, lim, off, list(ks), got, exp), dict(case=c, sql=text))
-            # ---------------- C. text forms of the other dialects (plain query)
-            stmt = apply(qs["plain"], lim, off, "int")
+            # ---------------- C. text forms of the other dialects: the plain query and the compound selects
             oa = c["offset_fetch"]
-            # MSSQL 2012+
-            text = _compile(stmt, d_ms_new)
-            nshape += 1
-            if c["top"]:
-                ok = re.match(r"SELECT TOP (\d+) ", text) and int(re.match(r"SELECT TOP (\d+) ", text).group(1)) == lim
-            else:
-                m = re.search(r"ORDER BY .* OFFSET (\d+) ROWS(?: FETCH FIRST (\d+) ROWS ONLY)?$", text)
-                ok = m and int(m.group(1)) == oa["o"] and (int(m.group(2)) if m.group(2) else -1) == oa["n"]
-            bump("mssql2012")
-            if not ok:
-                chk.violation(_sig(action="offset_fetch_text", dialect="mssql2012", **base), "MSSQL 2012+ limit=%r offset=%r: %s" % (lim, off, text), dict(case=c, sql=text))
-            # Oracle 12c+
-            text = _compile(stmt, d_ora_new)
-            nshape += 1
-            m = re.search(r"ORDER BY .*?(?: OFFSET (\d+) ROWS)?(?: FETCH FIRST (\d+) ROWS ONLY)?$", text)
-            ok = m and (int(m.group(1)) if m.group(1) else 0) == oa["o"] and (int(m.group(2)) if m.group(2) else -1) == oa["n"] and "ROWNUM" not in text
-            bump("oracle12")
-            if not ok:
-                chk.violation(_sig(action="offset_fetch_text", dialect="oracle12", **base), "Oracle 12c+ limit=%r offset=%r: %s" % (lim, off, text), dict(case=c, sql=text))
-            # PostgreSQL
-            text = _compile(stmt, d_pg)
-            nshape += 1
-            m = re.search(r"ORDER BY .*?(?: LIMIT (\d+|ALL))?(?: OFFSET (\d+))?$", text)
-            pa = c["pg"]
-            gotL = None if m is None else -1 if m.group(1) in (None, "ALL") else int(m.group(1))
-            gotO = None if m is None else -1 if m.group(2) is None else int(m.group(2))
-            bump("pg")
-            if m is None or (gotL, gotO) != (pa["L"], pa["O"]) or (m.group(1) == "ALL") != (lim is None):
-                chk.violation(_sig(action="limit_offset_text", dialect="postgresql", **base), "PostgreSQL limit=%r offset=%r: %s" % (lim, off, text), dict(case=c, sql=text))
-            # the generic compiler third-party dialects inherit: LIMIT n | LIMIT -1, OFFSET only if given
-            text = _compile(stmt, d_generic)
-            nshape += 1
-            m = re.search(r"ORDER BY .*?(?: LIMIT (-?\d+))?(?: OFFSET (\d+))?$", text)
-            gotL = None if m is None else -1 if m.group(1) is None else int(m.group(1))
-            gotO = None if m is None else -1 if m.group(2) is None else int(m.group(2))
-            bump("generic")
-            if m is None or (gotL, gotO) != (pa["L"], pa["O"]) or (m.group(1) == "-1") != (lim is None):
-                chk.violation(_sig(action="limit_offset_text", dialect="default", **base), "generic dialect limit=%r offset=%r: %s" % (lim, off, text), dict(case=c, sql=text))
-            # MySQL
-            text = _compile(stmt, d_my)
-            nshape += 1
-            ma = c["mysql"]
-            m2 = re.search(r"ORDER BY .* LIMIT (\d+), (\d+)$", text)
-            m1 = re.search(r"ORDER BY .* LIMIT (\d+)$", text)
-            if ma["a"] == -1:
-                ok = m1 and not m2 and int(m1.group(1)) == ma["b"]
-            else:
-                ok = m2 and int(m2.group(1)) == ma["a"] and (m2.group(2) == "18446744073709551615" if ma["b"] == -2 else int(m2.group(2)) == ma["b"])
-            bump("mysql")
-            if not ok:
-                chk.violation(_sig(action="limit_offset_text", dialect="mysql", **base), "MySQL limit=%r offset=%r must be %r: %s" % (lim, off, ma, text), dict(case=c, sql=text))
+            for shape, stmt in [("plain", apply(qs["plain"], lim, off, "int"))] + [(k, apply(q, lim, off, "int")) for k, q in cqs.items()]:
+                base = dict(base0, query=shape)
+                # MSSQL 2012+
+                text = _compile(stmt, d_ms_new)
+                nshape += 1
+                if c["top"] and shape == "plain":
+                    ok = re.match(r"SELECT TOP (\d+) ", text) and int(re.match(r"SELECT TOP (\d+) ", text).group(1)) == lim
+                else:           # a compound SELECT has no columns clause for TOP: OFFSET 0 ROWS FETCH FIRST n ROWS ONLY
+                    m = re.search(r"ORDER BY .* OFFSET (\d+) ROWS(?: FETCH FIRST (\d+) ROWS ONLY)?$", text)
+                    ok = m and int(m.group(1)) == oa["o"] and (int(m.group(2)) if m.group(2) else -1) == oa["n"]
+                bump("mssql2012")
+                if not ok:
+                    dropped = shape != "plain" and " ROWS" not in text and "TOP" not in text
+                    chk.violation(_sig(action="offset_fetch_text", dialect="mssql2012", clause_dropped=dropped, **base),
+                                  "MSSQL 2012+ %s limit=%r offset=%r: %s" % (shape, lim, off, text), dict(case=c, sql=text))
+                if shape != "plain":
+                    # before 2012 there is no clause that could follow a compound SELECT: refusing is correct, dropping is not
+                    text = _compile(stmt, d_ms_old)
+                    nshape += 1
+                    if not text.startswith("COMPILE-ERROR CompileError"):
+                        chk.violation(_sig(action="offset_fetch_text", dialect="mssql_old", clause_dropped="mssql_rn" not in text and "TOP" not in text, **base),
+                                      "MSSQL before 2012 %s limit=%r offset=%r is neither refused nor limited: %s" % (shape, lim, off, text), dict(case=c, sql=text))
+                # Oracle 12c+
+                text = _compile(stmt, d_ora_new)
+                nshape += 1
+                m = re.search(r"ORDER BY .*?(?: OFFSET (\d+) ROWS)?(?: FETCH FIRST (\d+) ROWS ONLY)?$", text)
+                ok = m and (int(m.group(1)) if m.group(1) else 0) == oa["o"] and (int(m.group(2)) if m.group(2) else -1) == oa["n"] and "ROWNUM" not in text
+                bump("oracle12")
+                if not ok:
+                    chk.violation(_sig(action="offset_fetch_text", dialect="oracle12", **base), "Oracle 12c+ limit=%r offset=%r: %s" % (lim, off, text), dict(case=c, sql=text))
+                # PostgreSQL
+                text = _compile(stmt, d_pg)
+                nshape += 1
+                m = re.search(r"ORDER BY .*?(?: LIMIT (\d+|ALL))?(?: OFFSET (\d+))?$", text)
+                pa = c["pg"]
+                gotL = None if m is None else -1 if m.group(1) in (None, "ALL") else int(m.group(1))
+                gotO = None if m is None else -1 if m.group(2) is None else int(m.group(2))
+                bump("pg")
+                if m is None or (gotL, gotO) != (pa["L"], pa["O"]) or (m.group(1) == "ALL") != (lim is None):
+                    chk.violation(_sig(action="limit_offset_text", dialect="postgresql", **base), "PostgreSQL limit=%r offset=%r: %s" % (lim, off, text), dict(case=c, sql=text))
+                # the generic compiler third-party dialects inherit: LIMIT n | LIMIT -1, OFFSET only if given
+                text = _compile(stmt, d_generic)
+                nshape += 1
+                m = re.search(r"ORDER BY .*?(?: LIMIT (-?\d+))?(?: OFFSET (\d+))?$", text)
+                gotL = None if m is None else -1 if m.group(1) is None else int(m.group(1))
+                gotO = None if m is None else -1 if m.group(2) is None else int(m.group(2))
+                bump("generic")
+                if m is None or (gotL, gotO) != (pa["L"], pa["O"]) or (m.group(1) == "-1") != (lim is None):
+                    chk.violation(_sig(action="limit_offset_text", dialect="default", **base), "generic dialect limit=%r offset=%r: %s" % (lim, off, text), dict(case=c, sql=text))
+                # MySQL
+                text = _compile(stmt, d_my)
+                nshape += 1
+                ma = c["mysql"]
+                m2 = re.search(r"ORDER BY .* LIMIT (\d+), (\d+)$", text)
+                m1 = re.search(r"ORDER BY .* LIMIT (\d+)$", text)
+                if ma["a"] == -1:
+                    ok = m1 and not m2 and int(m1.group(1)) == ma["b"]
+                else:
+                    ok = m2 and int(m2.group(1)) == ma["a"] and (m2.group(2) == "18446744073709551615" if ma["b"] == -2 else int(m2.group(2)) == ma["b"])
+                bump("mysql")
+                if not ok:
+                    chk.violation(_sig(action="limit_offset_text", dialect="mysql", **base), "MySQL limit=%r offset=%r must be %r: %s" % (lim, off, ma, text), dict(case=c, sql=text))
+
+            base = base0
             # ---------------- D. Oracle before 12c: the nesting of the ROWNUM form
             for qname in ("plain", "join", "distinct"):
                 text = _compile(apply(qs[qname], lim, off, "int"), d_ora_old)
@@ -337,7 +396,7 @@ def main(chk):
                                     mssql_wrapper=_compile(apply(qs["plain"], lim, off, "int"), d_ms_old),
                                     oracle_rownum=_compile(apply(qs["plain"], lim, off, "int"), d_ora_old)))
     for need in ("sqlite/plain", "sqlite/join", "sqlite/distinct", "sqlite/group_by", "mssql/top", "mssql/wrapper", "mssql2012", "oracle12", "pg", "mysql",
-                 "oracle_rownum", "fetch_options", "generic"):
+                 "oracle_rownum", "fetch_options", "generic", "sqlite/compound", "sqlite/compound_member"):
         if not counts.get(need):
             chk.machinery("vacuous: nothing exercised %s" % need)
     eng.dispose()
